@@ -936,7 +936,7 @@ impl Circuit {
             // apply `gate_map` to the inputs and establish conditions 1+2
             let mut neg_out = false;
             let mut mapped = BumpVec::with_capacity_in(inputs.len(), bump);
-            let known_inputs = input_set.len() - gates.len();
+            let known_inputs = input_set.len() / 2 - gates.len();
             match kind {
                 GateKind::And | GateKind::Or => {
                     let (identity, dominator) = match kind {
@@ -946,7 +946,7 @@ impl Circuit {
                     };
                     for &l in inputs {
                         let l = l.get_gate_no().map_or(l, |i| gate_map[i] ^ l.is_negative());
-                        if l.is_input() && l.get_input().unwrap() > known_inputs {
+                        if l.is_input() && l.get_input().unwrap() >= known_inputs {
                             return Err(l);
                         }
                         if l == dominator {
@@ -973,7 +973,7 @@ impl Circuit {
                             }
                             l
                         };
-                        if l.is_input() && l.get_input().unwrap() > known_inputs {
+                        if l.is_input() && l.get_input().unwrap() >= known_inputs {
                             return Err(l);
                         }
                         mapped.push(l);
